@@ -122,14 +122,19 @@ def _br_cfgs():
                 dict({"t_chroms": [c1, c1], "q_chroms": [c1, c1], "mode": mode, "keep_empty": ke}, **extra),
                 ("ts0<=ts1", "ts0>ts1"), ("qs0<=qs1", "qs0>qs1"), ("ts0<=qs0", "ts0>qs0"), ("te0<=qs1", "te0>qs1"),
             )
+    # Three table rows: both tables are sorted before the query (mk), so each table's symbolic rows are
+    # taken in start order without loss (any other order is the same table); the remaining cross
+    # comparisons are spread over the cores.  (The first thorough run, with the row orders split
+    # both ways, left 21 configurations unfinished at their path budget.)
     for mode in ("outer", "inner", "trim"):
         cfgs += split_cases(
             {"t_chroms": [c1, c1, c1], "q_chroms": [c1, c1], "mode": mode, "keep_empty": True, "tier": "thorough"},
-            ("ts0<=ts1", "ts0>ts1"), ("ts1<=ts2", "ts1>ts2"), ("ts0<=ts2", "ts0>ts2"), ("qs0<=qs1", "qs0>qs1"), ("ts0<=qs0", "ts0>qs0"), ("te0<=qs1", "te0>qs1"),
+            ("ts0<=ts1",), ("ts1<=ts2",), ("qs0<=qs1",),
+            ("ts0<=qs0", "ts0>qs0"), ("te0<=qs1", "te0>qs1"), ("ts1<=qs0", "ts1>qs0"), ("ts2<=qs1", "ts2>qs1"), ("te1<=qs1", "te1>qs1"), ("te0<=qs0", "te0>qs0"),
         )
         cfgs += split_cases(
             {"t_chroms": [c1, c1, c2], "q_chroms": [c1, c2], "mode": mode, "keep_empty": False, "tier": "thorough"},
-            ("ts0<=ts1", "ts0>ts1"), ("ts0<=qs0", "ts0>qs0"),
+            ("ts0<=ts1",), ("ts0<=qs0", "ts0>qs0"), ("te0<=qs0", "te0>qs0"), ("ts1<=qs0", "ts1>qs0"), ("te1<=qs0", "te1>qs0"), ("ts2<=qs1", "ts2>qs1"),
         )
     return cfgs
 
@@ -408,7 +413,7 @@ def _into_cfgs():
 
 
 HARNESSES = [
-    Harness("by_ranges", h_by_ranges, _br_cfgs(), covers=["some-hit", "some-empty", "two-hits", "nested-table-rows"], wall_s=200, thorough_wall_s=1500),
+    Harness("by_ranges", h_by_ranges, _br_cfgs(), covers=["some-hit", "some-empty", "two-hits", "nested-table-rows"], wall_s=200, thorough_wall_s=3000, max_paths=60000),
     Harness("in_range", h_in_range, _ir_cfgs(), covers=["hit", "miss"]),
     Harness(
         "in_ranges",
